@@ -525,6 +525,7 @@ func TestVerifMatch(t *testing.T) {
 	n += vtinyCorpora(o, r)
 	n += vstrayTail(o)
 	n += vnearTies(o)
+	n += vbigDict(o)
 	o.stat("match", map[string]interface{}{"match_cases": n})
 }
 
@@ -739,6 +740,77 @@ func vnearTies(o *vout) int {
 			o.verdict("C03", id, w == "", len(info.res.Matches) == 2, "neartie:"+id, map[string]interface{}{"what": w, "results": vshowResults(info.res), "n": n})
 			w2 := voracleC02(c, info)
 			o.verdict("C02", id, w2 == "", len(info.res.Matches) == 2, "neartie:"+id, map[string]interface{}{"what": w2, "n": n})
+		}
+	}
+	return cnt
+}
+
+// vbigDict: token ids travel through the word diff as runes. A corpus whose dictionary holds more
+// than 2^16 words has words whose ids agree modulo 2^16, and words whose ids lie in the UTF-16
+// surrogate range or just past it. A 40-word license is registered FIRST (ids 1..40), a second one
+// after 0xD800 filler words (ids in the surrogate range), a third past 2^16; inputs replace one word
+// of a license by the corpus word whose id is id+2^16 / id-2^16, by another word of the same id
+// range, or by an out-of-vocabulary word. The confidence bound is evaluated by the independent
+// Levenshtein oracle over the real token ids.
+func vbigDict(o *vout) int {
+	alpha := func(p string, i int) string {
+		s := ""
+		for {
+			s = string(rune('a'+i%26)) + s
+			i /= 26
+			if i == 0 {
+				break
+			}
+		}
+		return p + s
+	}
+	mk := func(p string, k int) []string {
+		var ws []string
+		for i := 0; i < k; i++ {
+			ws = append(ws, alpha(p, i))
+		}
+		return ws
+	}
+	c := NewClassifier(0.8)
+	low := mk("zql", 40)
+	c.AddContent("License", "Low", "license.txt", []byte(strings.Join(low, " ")))
+	c.AddContent("License", "FillerA", "license.txt", []byte(strings.Join(mk("zqf", 0xD800), " ")))
+	sur := mk("zqs", 40)
+	c.AddContent("License", "Sur", "license.txt", []byte(strings.Join(sur, " ")))
+	c.AddContent("License", "FillerB", "license.txt", []byte(strings.Join(mk("zqg", 12000), " ")))
+	high := mk("zqh", 40)
+	c.AddContent("License", "High", "license.txt", []byte(strings.Join(high, " ")))
+	c.AddContent("License", "FillerC", "license.txt", []byte(strings.Join(mk("zqi", 2000), " ")))
+	byID := map[tokenID]string{}
+	for _, d := range c.docs {
+		for _, t := range d.Tokens {
+			byID[t.ID] = c.dict.getWord(t.ID)
+		}
+	}
+	cnt := 0
+	for li, lic := range [][]string{low, sur, high} {
+		for _, pos := range []int{0, 10, 25, 39} {
+			id0 := c.dict.getIndex(lic[pos])
+			var subs []string
+			for _, delta := range []int{1 << 16, -(1 << 16), 1 << 15, 0xD800, 3, 41} {
+				if w, ok := byID[id0+tokenID(delta)]; ok && w != lic[pos] {
+					subs = append(subs, w)
+				}
+			}
+			subs = append(subs, "zyxqvoov", "")
+			for si, sub := range subs {
+				ws := append([]string(nil), lic...)
+				ws[pos] = sub
+				in := strings.Join(strings.Fields(strings.Join(ws, " ")), " ")
+				id := fmt.Sprintf("bigdict_%d_%d_%d", li, pos, si)
+				info := vmatchCase(o, c, "", nil, id, []byte(in), false)
+				cnt++
+				if info.panicked {
+					continue
+				}
+				w := voracleC02(c, info)
+				o.verdict("C02", id, w == "", len(info.res.Matches) > 0, "bigdict:"+id, map[string]interface{}{"what": w, "input": in, "dictionary_words": len(byID), "replaced_id": int(id0), "results": vshowResults(info.res)})
+			}
 		}
 	}
 	return cnt
